@@ -71,9 +71,12 @@ func runC09(o *hx.Out, r *hx.Rand, thorough bool) {
 		d   time.Duration
 	}{{"2000000u", 2 * time.Second}, {"1500000000n", 1500 * time.Millisecond}, {"3S", 3 * time.Second}, {"250m", 250 * time.Millisecond}, {"1M", time.Minute}, {"1H", time.Hour}, {"40000000u", 40 * time.Second}} {
 		for _, parent := range []time.Duration{30 * time.Second, 100 * time.Millisecond} {
+			// bracketed by clock reads, so that a descheduled harness cannot make a correct deadline look wrong:
+			// the deadline lies between (first read + expected) and (last read + expected)
+			tA := time.Now()
 			pctx, pcancel := context.WithTimeout(context.Background(), parent)
-			t0 := time.Now()
 			ctx, cancel, err := httpgrpc.VerifContextFromHeaders(pctx, http.Header{"Grpc-Timeout": {v.hdr}})
+			tB := time.Now()
 			want := v.d
 			if parent < want {
 				want = parent
@@ -82,8 +85,8 @@ func runC09(o *hx.Out, r *hx.Rand, thorough bool) {
 			var got time.Duration
 			if ok {
 				dl, has := ctx.Deadline()
-				got = dl.Sub(t0)
-				ok = has && got > want-20*time.Millisecond && got < want+20*time.Millisecond
+				got = dl.Sub(tA)
+				ok = has && !dl.Before(tA.Add(want-time.Millisecond)) && !dl.After(tB.Add(want+time.Millisecond))
 				cancel()
 			}
 			pcancel()
@@ -93,7 +96,12 @@ func runC09(o *hx.Out, r *hx.Rand, thorough bool) {
 			}
 			if parent > v.d {
 				// then it is the header's: the same observation in the vocabulary of the model
-				o.Case("server_with_parent_deadline", fmt.Sprintf("Srv (Some %s) %s %s %s false", hx.Str(v.hdr), hx.B(ok), hx.Z(int64(got)-int64(20*time.Millisecond)), hx.Z(int64(got)+int64(20*time.Millisecond))), d)
+				// the remaining time at the last and at the first clock read brackets the header's duration
+				lo, hi := int64(0), int64(0)
+				if dl, has := ctx.Deadline(); err == nil && has {
+					lo, hi = int64(dl.Sub(tB))-1000, int64(dl.Sub(tA))+1000
+				}
+				o.Case("server_with_parent_deadline", fmt.Sprintf("Srv (Some %s) %s %s %s false", hx.Str(v.hdr), hx.B(err == nil), hx.Z(lo), hx.Z(hi)), d)
 			}
 		}
 	}
